@@ -710,6 +710,16 @@ def run_replica(sdir, reps, stage, e, infile, opts, src, wdir, stats, timeout=No
                 f.write(b"@" * off + data)
             stdin_arg = os.open(sf, os.O_RDONLY)
             os.lseek(stdin_arg, off, os.SEEK_SET)
+    def listing():
+        s = set()
+        for d in (wdir, os.path.dirname(infile)):
+            for root, dirs, fs in os.walk(d):
+                if root == wdir:
+                    dirs[:] = [x for x in dirs if x not in ("in", "include") and not x.startswith("cw")]
+                for x in fs + dirs:
+                    s.add(os.path.relpath(os.path.join(root, x), d))
+        return s    # (/tmp is shared with the other workers: what is left there is C14's business, and C14 has a private one)
+    files_before = listing()
     po = subprocess.Popen(argv, cwd=wdir, env=env_vars(e, sdir, stats), stdin=stdin_arg, stdout=subprocess.PIPE, stderr=subprocess.PIPE,
                           start_new_session=True, pass_fds=extra_fds, preexec_fn=_child_setup(e, bigstack, from_stdin))
     if isinstance(stdin_arg, int) and stdin_arg >= 0 and from_stdin:
@@ -733,7 +743,10 @@ def run_replica(sdir, reps, stage, e, infile, opts, src, wdir, stats, timeout=No
     p.returncode, p.stdout, p.stderr = po.returncode, so, se
     # the assembler names its input, a temporary with a random name, in its own messages: not compiler output
     err = re.sub(rb"/tmp/chibicc-[A-Za-z0-9]{6}", b"/tmp/chibicc-TEMP", p.stderr)
-    res = {"status": p.returncode, "stdout": p.stdout, "stderr": err, "out": None, "dep": None}
+    # files that came into being next to the input or in the working directory, other than the requested ones
+    newf = sorted(x for x in listing() - files_before if os.path.basename(x) not in ("out.bin", "out.d", "stats", "stdin.bin") and not x.endswith(".hardlink"))
+    newf = [re.sub(r"chibicc-[A-Za-z0-9]{6}", "chibicc-TEMP", x) for x in newf]
+    res = {"status": p.returncode, "stdout": p.stdout, "stderr": err, "out": None, "dep": None, "newfiles": "\n".join(newf).encode()}
     old = (b"OLD CONTENT %d\n" % e["preexist"]) * (e["preexist"] // 14 + 1) if e.get("preexist", 0) > 0 else None
     old_dep = old
     if os.path.exists(out):
@@ -749,7 +762,7 @@ def run_replica(sdir, reps, stage, e, infile, opts, src, wdir, stats, timeout=No
 
 
 def diff_fields(a, b):
-    return [k for k in ("status", "stdout", "stderr", "out", "dep") if a[k] != b[k]]
+    return [k for k in ("status", "stdout", "stderr", "out", "dep", "newfiles") if a.get(k) != b.get(k)]
 
 
 def equalise_time(case, text):
